@@ -99,20 +99,20 @@ BSet(k) == IF Scale(k) = 0 THEN {0, 1, 7, 8, 63, 64, 127, 128, 191, 192, 247, 24
            ELSE {0, 1, 2, 126, 127, 128, 129, 253, 254, 255}
 
 PresetB(k) ==
-    [SLOTS_PER_EPOCH |-> 2 + R1(k, 2) % 3, MAX_COMMITTEES_PER_SLOT |-> 1 + R1(k, 3) % 3,
-     TARGET_COMMITTEE_SIZE |-> 1 + R1(k, 4) % 3, SHUFFLE_ROUND_COUNT |-> 1 + R1(k, 5) % 2,
-     MAX_EFFECTIVE_BALANCE |-> MaxEff(k), SYNC_COMMITTEE_SIZE |-> 4 * (1 + R1(k, 6) % 2),
+    [SLOTS_PER_EPOCH |-> 2 + (R1(k, 2) % 3), MAX_COMMITTEES_PER_SLOT |-> 1 + (R1(k, 3) % 3),
+     TARGET_COMMITTEE_SIZE |-> 1 + (R1(k, 4) % 3), SHUFFLE_ROUND_COUNT |-> 1 + (R1(k, 5) % 2),
+     MAX_EFFECTIVE_BALANCE |-> MaxEff(k), SYNC_COMMITTEE_SIZE |-> 4 * (1 + (R1(k, 6) % 2)),
      EPOCHS_PER_HISTORICAL_VECTOR |-> 8, MIN_SEED_LOOKAHEAD |-> 1, EPOCHS_PER_SYNC_COMMITTEE_PERIOD |-> 2,
      EFFECTIVE_BALANCE_INCREMENT |-> IF Scale(k) = 0 THEN 1000 ELSE 100]
 
-NVals(k) == LET spe == PresetB(k).SLOTS_PER_EPOCH IN spe + R1(k, 7) % (MaxV - spe + 1)
-EpochB(k) == 2 + R1(k, 8) % 3
+NVals(k) == LET spe == PresetB(k).SLOTS_PER_EPOCH IN spe + (R1(k, 7) % (MaxV - spe + 1))
+EpochB(k) == 2 + (R1(k, 8) % 3)
 
 ValsB(k) ==
     LET e == EpochB(k)
         nv == NVals(k)
         full1 == R1(k, 9) % nv
-        full2 == (full1 + 1 + R1(k, 10) % Max2(1, nv - 1)) % nv
+        full2 == (full1 + 1 + (R1(k, 10) % Max2(1, nv - 1))) % nv
     IN [i1 \in 1 .. nv |->
           IF i1 - 1 = full1 \/ i1 - 1 = full2 THEN [act |-> 0, exit |-> FAR, eff |-> MaxEff(k)]
           ELSE LET sx == R1(k, 100 + i1) % 8
